@@ -292,6 +292,6 @@ Fixpoint quoted_list_beyond (lim : nat) (cts : list (nat * token)) : bool :=
   end.
 Definition far_quote_text (text : chars) : bool :=
   match lex text with
-  | Some ts => quoted_list_beyond 240 (flat_cols true 0 ts)
+  | Some ts => quoted_list_beyond 250 (flat_cols true 0 ts)
   | None => true
   end.
